@@ -121,7 +121,11 @@ private:
       ++iterations;
       for (unsigned i = 0, e = order.size(); i < e; ++i) {
         auto const &n = order[i];
-        auto out = (i == 0 ? m_analysis.entry() : killgen_domain_t::bottom());
+        // The boundary value holds at the exit block. The exit block
+        // is not necessarily the first node of the order if there
+        // are other blocks without successors.
+        const bool is_exit = (m_cfg.has_exit() ? n == m_cfg.exit() : i == 0);
+        auto out = (is_exit ? m_analysis.entry() : killgen_domain_t::bottom());
         for (auto const &p : m_cfg.next_nodes(n))
           out = m_analysis.merge(out, m_in_map[p]);
         auto old_in = m_in_map[n];
